@@ -495,6 +495,11 @@ class ExecutionState:
                 msg: str = "completion_event must be set for synchronous execution"
                 raise DurableExecutionsError(msg)
 
+            # The background thread may have failed (and drained the queue) between the check
+            # above and the put: it will never look at the queue again, so do not wait for it
+            if self._checkpointing_failed.is_set():
+                self._checkpointing_failed.wait()
+
             # Wait for completion - will raise BackgroundThreadError if background thread fails
             completion_event.wait()
         else:
@@ -648,6 +653,10 @@ class ExecutionState:
                         "Checkpoint creation failed", e
                     )
 
+                    # Set the failure event first, so that a caller enqueueing from now on fails
+                    # immediately instead of waiting for a consumer that is about to exit
+                    self._checkpointing_failed.set(bg_error)
+
                     # FIFO: although at this point order not really import any anymore
                     # Signal completion events for the failed batch
                     for queued_op in batch:
@@ -671,9 +680,6 @@ class ExecutionState:
                                 item.completion_event.set(bg_error)
                         except queue.Empty:
                             break
-
-                    # Set the failure event so future checkpoint attempts fail immediately
-                    self._checkpointing_failed.set(bg_error)
 
                     # Exit the loop - error has been signaled to main thread via completion events
                     break
